@@ -51,10 +51,20 @@ def rand_rle16(rng, w, h):
     out = 0
     b = []
     pal = [rng.randrange(65536) for _ in range(3)] + [0, 0xffff, 0xf81f]
+    prev = None
     while out < total:
-        room = (w - out) if out < w else (total - out)
+        # scanline-aware, as real encoders are: many orders end exactly at the end of a scanline (the current one,
+        # the next one), and an order kind is often repeated (two background runs in a row insert a foreground pixel)
+        line_room = w - (out % w)
+        room = line_room if out < w else (total - out)
         kind = rng.choice(["bg", "fg", "color", "image", "fgbg", "setfg", "setfgbg", "dither", "white", "black", "special"])
-        run = min(room, rng.choice([1, 2, 3, 7, 8, 9, 15, 16, 17, 31, 32, 33, 40, 64, 255, 256, 300, room, max(1, room - 1)]))
+        if prev is not None and rng.random() < 0.3:
+            kind = prev
+        elif rng.random() < 0.15:
+            kind = "bg"
+        run = min(room, rng.choice([1, 2, 3, 7, 8, 9, 15, 16, 17, 31, 32, 33, 40, 64, 255, 256, 300, room, max(1, room - 1),
+                                    line_room, line_room, line_room, line_room + w, line_room + 2 * w]))
+        prev = kind
         mega = rng.random() < 0.25
         c = le16(rng.choice(pal))
         if kind in ("bg", "fg", "color", "image"):
